@@ -189,6 +189,10 @@ func (n *Node) listen() error {
 		if action != "" && n.restHold != nil && n.restHold[action] != nil {
 			hold = n.restHold[action]
 			delete(n.restHold, action)
+		} else if k := r.Method + " " + r.URL.Path; action == "" && n.restHold != nil && n.restHold[k] != nil && r.Header.Get("X-Verif-Origin") == "" {
+			// a hold keyed "<METHOD> <path>" for requests without an action (the product's GETs)
+			hold = n.restHold[k]
+			delete(n.restHold, k)
 		}
 		n.mu.Unlock()
 		if hold != nil {
